@@ -19,8 +19,8 @@ const (
 type PathState struct {
 	Blocks []*ssa.BasicBlock
 	nil_   map[ssa.Value]Nilness
-	alias  map[ssa.Value]ssa.Value // phi -> incoming value on this path
-	bools  map[ssa.Value]bool      // known boolean values (conditions decided earlier on the path)
+	alias  map[ssa.Value]ssa.Value  // phi -> incoming value on this path
+	bools  map[ssa.Value]bool       // known boolean values (conditions decided earlier on the path)
 	cells  map[*ssa.Alloc]ssa.Value // last value stored into a local cell on this path
 	// Counts is free for the client: per-path counters/marks, copied at every branch.
 	Counts map[string]int
